@@ -85,8 +85,8 @@ def gen(ctx):
         a, b = ctx.rng.choice(pool), ctx.rng.choice(pool)
         if ctx.rng.random() < 0.3:
             b = a
-        cases.append({"kind": "eq", "a": list(a), "b": list(b), "how_a": ctx.rng.choice(["parse", "from_parts", "join"]),
-                      "how_b": ctx.rng.choice(["parse", "from_parts", "join"])})
+        hows = ["parse", "from_parts", "join", "from_parts_int", "noescape", "parent", "match", "to"]
+        cases.append({"kind": "eq", "a": list(a), "b": list(b), "how_a": ctx.rng.choice(hows), "how_b": ctx.rng.choice(hows)})
     return cases
 
 
@@ -101,6 +101,24 @@ def _build(how, toks):
         return JSONPointer(G.rfc6901_spell(toks))
     if how == "from_parts":
         return JSONPointer.from_parts(list(toks))
+    if how == "from_parts_int":       # canonical non-negative integers given as ints, as a match's parts would be
+        import re
+        return JSONPointer.from_parts([int(t) if re.fullmatch(r"0|[1-9][0-9]{0,8}", t) else t for t in toks])
+    if how == "noescape":
+        return JSONPointer(G.rfc6901_spell(toks), unicode_escape=False)
+    if how == "parent":               # one token too many, then parent()
+        return JSONPointer(G.rfc6901_spell(list(toks) + ["extra"])).parent()
+    if how == "match":                # the pointer of a JSONPath match at that location (object members only)
+        import jsonpath
+        doc = _nested_doc(list(toks))
+        ms = [m for m in jsonpath.finditer("$..*", doc) if [str(x) for x in m.parts] == list(toks)] if toks else [jsonpath.match("$", doc)]
+        return ms[0].pointer()
+    if how == "to":                   # reached by a relative pointer from a sibling
+        if any(t != t.strip() for t in toks):
+            return JSONPointer(G.rfc6901_spell(toks))   # blanks at the edge of a relative pointer text are outside the property
+        if not toks:
+            return JSONPointer("/x").to("1")
+        return JSONPointer(G.rfc6901_spell(list(toks[:-1]) + ["sibling"])).to("1" + G.rfc6901_spell(toks[-1:]))
     if any(t[:1].isspace() for t in toks):  # a joined part is lstrip()ped: outside the property
         return JSONPointer(G.rfc6901_spell(toks))
     p = JSONPointer("")
@@ -243,6 +261,13 @@ def _join_laws(ctx, c, s, q):
         ctx.violation("the parent of (p / t) must be p", c, str(q.parent()), s)
     if not q.is_relative_to(p):
         ctx.violation("(p / t) must be relative to p", c, False, True)
+    if p.is_relative_to(q):
+        ctx.violation("p must not be relative to its own extension (p / t)", c, True, False)
+    other = JSONPointer.from_parts(list(toks) + [t + "x"])
+    if q.is_relative_to(other) or other.is_relative_to(q):
+        ctx.violation("pointers that differ in their last token are not relative to each other", c, True, False)
+    if toks and JSONPointer.from_parts([toks[0] + "x"] + list(toks[1:]) + [t]).is_relative_to(p):
+        ctx.violation("a pointer under another first token is not relative to p", c, True, False)
     q2 = core.outcome(lambda: p.join(G.rfc6901_escape(t)))
     if "ok" not in q2 or not (q2["ok"] == q):
         ctx.violation("join() and the slash operator must agree", c, str(q2.get("ok", q2.get("err"))), str(q))
